@@ -27,7 +27,7 @@ def bounds(tier):
 
 def _schemas(tier):
     maxd = 2 if tier == "quick" else 3
-    return [d for d in space.schemas(tier) if space.depth(d) <= maxd]
+    return space._uniq([d for d in space.schemas(tier) if space.depth(d) <= maxd] + space.nullability_cross())
 
 
 def units(tier):
